@@ -109,8 +109,12 @@ _EXC_TREE = {
     "FileNotFoundError": "OSError", "PermissionError": "OSError", "IOError": "Exception",
     "RuntimeError": "Exception", "NotImplementedError": "RuntimeError",
     "RecursionError": "RuntimeError", "StopIteration": "Exception", "TypeError": "Exception",
-    "ValueError": "Exception", "UnicodeDecodeError": "ValueError", "OverflowError": "ArithmeticError", "Warning": "Exception",
+    "ValueError": "Exception", "UnicodeDecodeError": "UnicodeError", "OverflowError": "ArithmeticError", "Warning": "Exception",
     "UserWarning": "Warning",
+    # pickle's own hierarchy (pickle.PickleError <- PicklingError, UnpicklingError)
+    "PickleError": "Exception", "PicklingError": "PickleError", "UnpicklingError": "PickleError",
+    "FileExistsError": "OSError", "IsADirectoryError": "OSError", "NotADirectoryError": "OSError", "TimeoutError": "OSError",
+    "UnicodeError": "ValueError", "UnicodeEncodeError": "UnicodeError", "BufferError": "Exception", "FloatingPointError": "ArithmeticError",
 }
 EXC = {}
 for _n in _EXC_TREE:
